@@ -371,7 +371,7 @@ def run_query(ctx, q, known):
         r.failures = [f for f in r.failures]
         if not r.failures:
             return r
-    if not r.witness and not r.failures:
+    if not r.witness and not r.failures and not unwind_fail:
         r.status = "broken"
         r.detail = "vacuous: WITNESS assertion not reported violated (harness end unreachable)"
         return r
@@ -578,7 +578,7 @@ def run_all(ctx, queries, known):
             results.append(r)
             log("  [%-12s] %-46s %6.1fs solver %5.1fs props %d/%d%s" % (
                 r.status, r.q.name, r.wall, r.solver_s, r.n_ok, r.n_props,
-                ("  " + r.detail.splitlines()[0][:140]) if r.detail else ""))
+                ("  " + r.detail.splitlines()[0][:100]) if r.detail else ""))
     results.sort(key=lambda r: r.q.name)
     return results
 
@@ -633,8 +633,11 @@ def finish(ctx, info, results, known, fixed, extra_cov=None):
             log("    replay-log: " + f["replay_log"][:600])
     for r in inconc:
         log("INCONCLUSIVE property=%s query=%s: %s" % (pid, r.q.name, r.detail.splitlines()[0] if r.detail else ""))
+    shown = set()
     for r in broken:
-        log("BROKEN property=%s query=%s: %s" % (pid, r.q.name, r.detail[:1500]))
+        d = r.detail[:1500]
+        log("BROKEN property=%s query=%s: %s" % (pid, r.q.name, d if d not in shown else "(same message as above)"))
+        shown.add(d)
 
     funcs = set()
     for r in results:
